@@ -180,9 +180,7 @@ class HTTP1Connection(httputil.HTTPConnection):
         been read. The result is true if the stream is still open.
         """
         if self.params.decompress:
-            delegate = _GzipMessageDelegate(
-                delegate, self.params.chunk_size, self._max_body_size
-            )
+            delegate = _GzipMessageDelegate(delegate, self.params.chunk_size, self)
         return self._read_message(delegate)
 
     async def _read_message(self, delegate: httputil.HTTPMessageDelegate) -> bool:
@@ -743,11 +741,14 @@ class _GzipMessageDelegate(httputil.HTTPMessageDelegate):
         self,
         delegate: httputil.HTTPMessageDelegate,
         chunk_size: int,
-        max_body_size: int,
+        connection: HTTP1Connection,
     ) -> None:
         self._delegate = delegate
         self._chunk_size = chunk_size
-        self._max_body_size = max_body_size
+        # The body size limit is read from the connection when it is needed
+        # because the delegate may change it in headers_received
+        # (HTTP1Connection.set_max_body_size).
+        self._connection = connection
         self._decompressed_body_size = 0
         self._compressed_body_size = 0
         self._decompressor: GzipDecompressor | None = None
@@ -779,7 +780,7 @@ class _GzipMessageDelegate(httputil.HTTPMessageDelegate):
                     raise httputil.HTTPInputError("invalid gzip body: %s" % e)
                 if decompressed:
                     self._decompressed_body_size += len(decompressed)
-                    if self._decompressed_body_size > self._max_body_size:
+                    if self._decompressed_body_size > self._connection._max_body_size:
                         raise httputil.HTTPInputError("decompressed body too large")
                     ret = self._delegate.data_received(decompressed)
                     if ret is not None:
